@@ -16,6 +16,9 @@ struct vcomp {
 void frgv_force(int *b, int *e, vcomp c, A_arr3 &x, A_arr1 &y) {
 	frg::insertion_sort(b, e, c);
 	(void)(x == x);
+	swap(x, x);
+	(void)(y == y);
+	swap(y, y);
 }
 }
 #define IBS(N) template class frg::bitset<N>; \
